@@ -68,13 +68,15 @@ HINTS = {('empty_dict', 'initial'): Dict(STR, FLOAT), ('empty_dict', 'new_value'
 
 # ghost bookkeeping of the decorative block: vtc_ix / failed_ix / dv_ix = indices into Parser.Decoration of the pending / failed-this-round /
 # done entries; state_[j] = -1 when Decoration[j] is done, else the round in which it last failed (0: never tried); slot_[j] = where it sits
-GHOST = [('vars_to_compute = []', 'vtc_ix = []\ndv_ix = []\nstate_ = []\nslot_ = []\nround_ = 0'),
+GHOST = [('last_error = False', 'prev_ = initial'), ('new_value = dict()', 'prev_ = initial'),
+         ('vars_to_compute = []', 'vtc_ix = []\ndv_ix = []\nstate_ = []\nslot_ = []\nround_ = 0'),
          ('vars_to_compute.append((var, eqn))', 'vtc_ix.append(len(vtc_ix))\nstate_.append(0)\nslot_.append(len(vtc_ix) - 1)'),
          ('failed = []', 'failed_ix = []\nround_ = round_ + 1'),
          ('failed.append((var, eqn))', 'failed_ix.append(vtc_ix[w])\nstate_[vtc_ix[w]] = round_\nslot_[vtc_ix[w]] = len(failed_ix) - 1'),
          ('decoration_values.append((var, val))', 'dv_ix.append(vtc_ix[w])\nstate_[vtc_ix[w]] = 0 - 1\nslot_[vtc_ix[w]] = len(dv_ix) - 1'),
          ('vars_to_compute = failed', 'vtc_ix = failed_ix')]
 
+FAILED = lambda d: '(1 <= eval_code(%s[j][1], %s) and eval_code(%s[j][1], %s) <= 3)' % (ENDO, d, ENDO, d)
 FIN_ENDO = lambda d: 'all(isfinite(%s[%s[j][0]]) for j in range(0, len(%s)))' % (d, ENDO, ENDO)
 
 VARLIST = ('len(varlist) == len(%s) + len(%s) and all(varlist[j] == %s[j][0] for j in range(0, len(%s))) and '
@@ -140,6 +142,8 @@ LOOPS = {
         ('no_sweep_yet', 'implies(num_tries == 0, relative_error == 1.0)'),
         ('error_is_nan_or_nonnegative', 'isnan(relative_error) or relative_error >= 0.0'),
         ('finite_error_means_finite_iterate', 'implies(num_tries >= 1 and isfinite(relative_error), %s)' % FIN_ENDO('initial')),
+        # C11: after a sweep the flag says whether some equation failed to evaluate on the iterate the sweep started from (ghost prev_)
+        ('error_flag_reflects_the_last_sweep', 'implies(num_tries >= 1, had_evaluation_errors == any(%s for j in range(0, len(%s))))' % (FAILED('prev_'), ENDO)),
     ], decreases='self.MaxIterations + 1 - num_tries'),
     6: LoopSpec(index='g', modifies=DMOD, ghost={'HG': 'heap_now()'}, invariants=[
         ('frame', FR), ('env_fresh', 'fresh(initial) and fresh(new_value) and new_value is not initial'),
@@ -228,6 +232,10 @@ GHOST.append(('while len(vars_to_compute) > 0:', "_cut('before_append', %r, %r, 
     FR + ' and ' + PLISTS, 'fresh(initial) and fresh(decoration_values) and fresh(dv_ix)',
     endo_keys('initial') + ' and ' + lag_keys('initial'), FIN_ENDO('initial'), DONE,
     'fresh(state_) and fresh(slot_) and state_ is not slot_ and ' + COVER_END)))
+
+# C11: the period is only reported when every equation evaluated without an arithmetic error on the last sweep
+GHOST.append(('if had_evaluation_errors:', "_assert(%r, 'no_failed_evaluation_on_the_last_sweep')" %
+              ('all(not %s for j in range(0, len(%s)))' % (FAILED('prev_'), ENDO))))
 
 # cut after the fixed-point iteration: only the iterate and the frame matter for the rest
 GHOST.append(("Logger('Number of iterations: {0}'.format(num_tries), priority=3)", "_cut('after_iteration', %r, %r, %r, %r)" % (
